@@ -102,7 +102,7 @@ class Gen:
         allow_int = r.random() < 0.12
         for _ in range(nent):
             kind = "F" if not ctx["fs"] else r.choices(["F", "T", "A"], [6, 2, 2])[0]
-            c = dict(ctx, kind=kind, allow_int=allow_int and kind == "F")
+            c = dict(ctx, kind=kind, allow_int=allow_int)
             nacts = r.choice([0, 0, 1, 1, 2, 3]) if kind != "A" else r.choice([1, 2, 3, 4])
             if kind == "T":
                 # misbehaving thenables: call both functions, several times, synchronously (in then) or later (slot kept)
@@ -111,9 +111,11 @@ class Gen:
                     acts.append([r.choice(["res", "res", "rej"]), None, self.val(c, allow_arg=False)])
                 if r.random() < 0.3:
                     acts.insert(r.randrange(len(acts) + 1), ["log", str(r.randrange(10))])
+                if allow_int and r.random() < 0.2:
+                    acts.insert(r.randrange(len(acts) + 1), ["int"])
                 slot = r.randrange(ns)
                 for a in acts:
-                    if a[1] is None:
+                    if len(a) > 1 and a[1] is None:
                         a[1] = str(slot)
                 gt = "-"
                 if r.random() < 0.15:
@@ -353,7 +355,7 @@ def main(ctx):
         if rc != 0 or not os.path.exists(model):
             model = None
         rc, o, e = sh(["lake", "build", "GojaModel.C10.Props"], cwd=LEAN, timeout=1200)
-    ctx.audit("GojaModel.C10.Props", expect_min=24)
+    ctx.audit("GojaModel.C10.Props", expect_min=32)
     if not quick:
         ctx.leanchecker("GojaModel.C10.Props")
     ctx.log("lean built + audited")
